@@ -89,7 +89,13 @@ def _own_text(oracle_fn):
 class _Witnesses(OracleOnly):
     """witnesses of listed findings that the models do not exhibit (no model side: judged by the oracle alone)"""
     def gen(self, rng, tier):
-        return iter(())
+        # the design's witnesses (harness/pipe_witnesses.py): each listed finding of this property is met on every run,
+        # repaired ones stay in as silent regression cases
+        from .. import pipe_witnesses
+        for w in pipe_witnesses.WITNESSES:
+            c = w[3]
+            if w[1] in ("C01", "C02") and isinstance(c, dict) and "pipe" in c and "tables" in c:
+                yield {"tables": c["tables"], "pipe": c["pipe"], "meta": {"witness": w[0]}, "_always": True}
 
 
 SUITES = [
